@@ -113,12 +113,44 @@ class SimVM:
             self.p = None
 
 
+_SCRATCH_PID = None
+
+
+def _norm_scratch(x):
+    """Scratch directories carry the pid of the generating process (fixed width), so that concurrent checks never share
+    one. The pid is not part of the simulated history: it is masked before hashing, also inside base64 payloads."""
+    global _SCRATCH_PID
+    import re
+    import base64
+    if _SCRATCH_PID is None:
+        _SCRATCH_PID = re.compile(r"(/var/tmp/verif-c\d\d/r)\d{7}_")
+    if isinstance(x, str):
+        if "/var/tmp/verif-c" in x:
+            return _SCRATCH_PID.sub(r"\1P_", x)
+        if len(x) >= 24 and len(x) % 4 == 0 and re.fullmatch(r"[A-Za-z0-9+/]+=*", x):
+            try:
+                raw = base64.b64decode(x)
+            except Exception:    # noqa
+                return x
+            if b"/var/tmp/verif-c" in raw:
+                return "b64:" + _SCRATCH_PID.sub(r"\1P_", raw.decode("latin-1"))
+        return x
+    if isinstance(x, list):
+        return [_norm_scratch(y) for y in x]
+    if isinstance(x, dict):
+        return {k: _norm_scratch(v) for k, v in x.items()}
+    return x
+
+
 def history_hash(h):
     if "crash" in h:
         c = h["crash"]
         return "crash:%s:%s:%s" % (c.get("exit"), c.get("signal"), crash_site(c))
     m = hashlib.sha256()
-    m.update(json.dumps(h.get("events"), separators=(",", ":")).encode())
+    dump = json.dumps(h.get("events"), separators=(",", ":"))
+    if "/var/tmp/verif-c" in dump or '"vfs_read"' in dump or '"pbo' in dump:
+        dump = json.dumps(_norm_scratch(h.get("events")), separators=(",", ":"))
+    m.update(dump.encode())
     m.update(json.dumps(h.get("monitor"), separators=(",", ":")).encode())
     m.update(json.dumps(h.get("final"), sort_keys=True).encode())
     m.update(str(h.get("truncated")).encode())
@@ -230,6 +262,31 @@ def execute_case(mod, sim, case):
     return hs
 
 
+def nondet_detail(mod, hs, hs2):
+    out = []
+    for i, (a, b) in enumerate(zip(hs, hs2)):
+        if history_hash(a) != history_hash(b):
+            d = "execution %d of the case differs between two runs of the very same plan" % i
+            if "events" in a and "events" in b:
+                for ea, eb in zip(a["events"], b["events"]):
+                    if ea != eb:
+                        d += ": %s vs %s" % (json.dumps(ea)[:300], json.dumps(eb)[:300])
+                        break
+            out.append(d)
+    return "; ".join(out[:2]) or "histories differ"
+
+
+def executions_differ(mod, sim, case, tries=6):
+    """re-executes a case until two executions differ; returns (hs_a, hs_b) or None"""
+    first = execute_case(mod, sim, case)
+    hh = [history_hash(h) for h in first]
+    for _ in range(tries - 1):
+        again = execute_case(mod, sim, case)
+        if [history_hash(h) for h in again] != hh:
+            return first, again
+    return None
+
+
 def _wrun(run):
     mod, sim, seed, tier = _W["mod"], _W["sim"], _W["seed"], _W["tier"]
     t0 = time.time()
@@ -246,11 +303,18 @@ def _wrun(run):
         sig = mod.signature(case, hs)
         hh = [history_hash(h) for h in hs]
         nondet = None
-        if _W["recheck"] and run % _W["recheck"] == 0:
+        recheck = _W["recheck"]
+        if recheck and getattr(mod, "NONDET_KEY", None):
+            recheck = max(1, recheck // 5)       # the property is about determinism: re-execute more often
+        if recheck and run % recheck == 0:
             hs2 = execute_case(mod, sim, case)
             hh2 = [history_hash(h) for h in hs2]
             if hh2 != hh:
-                nondet = (hh, hh2)
+                if getattr(mod, "NONDET_KEY", None):
+                    # the property under test IS determinism: a re-execution that differs is a violation, not a harness fault
+                    viols = list(viols) + [Violation("deterministic", mod.NONDET_KEY, nondet_detail(mod, hs, hs2))]
+                else:
+                    nondet = (hh, hh2)
         stats = mod.stats(case, hs) if hasattr(mod, "stats") else {}
         return {"run": run, "viols": [v.to_json() for v in viols], "sig": sig, "hash": hh, "nondet": nondet,
                 "stats": stats, "case": case if (viols or run < 3) else None, "dt": time.time() - t0}
@@ -293,8 +357,13 @@ def replay_file(mod, path, sim=None):
     if own:
         sim = SimVM()
     try:
-        hs = execute_case(mod, sim, doc["case"])
-        vs = mod.judge(doc["case"], hs)
+        if doc.get("expected", {}).get("key") == getattr(mod, "NONDET_KEY", "<none>"):
+            pair = executions_differ(mod, sim, doc["case"])
+            hs = pair[0] if pair else []
+            vs = [Violation("deterministic", mod.NONDET_KEY, nondet_detail(mod, pair[0], pair[1]))] if pair else []
+        else:
+            hs = execute_case(mod, sim, doc["case"])
+            vs = mod.judge(doc["case"], hs)
     finally:
         if own:
             sim.close()
@@ -363,7 +432,9 @@ def run_check(modname, tier, n_runs, workers=None, time_cap_s=None, level="explo
     sim = SimVM()
     exit_code = 0
     try:
-        for key in new_keys[:5]:
+        nd_last = getattr(mod, "NONDET_KEY", None)
+        ordered = [k for k in new_keys if k != nd_last][:5] + [k for k in new_keys if k == nd_last]
+        for key in ordered:
             i = by_key[key][0]
             case = results[i]["case"]
             if case is None:
@@ -372,6 +443,41 @@ def run_check(modname, tier, n_runs, workers=None, time_cap_s=None, level="explo
                     bigger = mod.expand(case, execute_case(mod, sim, case))
                     if bigger is not None:
                         case = bigger
+            nd_key = getattr(mod, "NONDET_KEY", None)
+            if nd_key and key != nd_key:
+                # a verdict that rests on executions which differ from run to run is reported as what it is
+                hs_a = execute_case(mod, sim, case)
+                hs_b = execute_case(mod, sim, case)
+                if [history_hash(h) for h in hs_a] != [history_hash(h) for h in hs_b]:
+                    if nd_key in [v["key"] for v in violations_out]:
+                        continue
+                    key = nd_key
+                    by_key.setdefault(key, []).append(i)
+            if key == nd_key:
+                pair = executions_differ(mod, sim, case)
+                if pair is None:
+                    if exit_code == 1:
+                        # other violations of this run are confirmed and replayable; a difference that does not come back is only noted
+                        print("NOTE: run %d differed between two executions once; six further executions agree (not reported)" % i, flush=True)
+                        continue
+                    print("HARNESS NOT DETERMINISTIC: run %d differed once, six further executions agree" % i, flush=True)
+                    sys.exit(2)
+                safe = "".join(c if c.isalnum() else "_" for c in key)[:60]
+                path = os.path.join(REPLAYS, "%s-%d-%d-%s.json" % (prop, seed, i, safe))
+                v0 = Violation("deterministic", key, nondet_detail(mod, pair[0], pair[1]))
+                with open(path, "w") as f:
+                    json.dump({"property": prop, "seed": seed, "run": i, "tier": tier, "shrink_execs": 0, "expected": v0.to_json(),
+                               "history_hash": [history_hash(h) for h in pair[0]], "case": case}, f, indent=1)
+                r = subprocess.run([sys.executable, os.path.join(VERIF, "checks", "check.py"), prop, "--replay", path, "--quiet"],
+                                   stdout=subprocess.PIPE, stderr=subprocess.STDOUT, text=True)
+                if r.returncode != 1:
+                    print("HARNESS NOT DETERMINISTIC: fresh replay of %s gave exit %d\n%s" % (path, r.returncode, r.stdout[-2000:]), flush=True)
+                    sys.exit(2)
+                print("VIOLATION property=%s replay=%s" % (prop, path), flush=True)
+                print("  rule=%s key=%s runs=%d detail=%s" % (v0.rule, key, len(by_key[key]), v0.detail[:600]), flush=True)
+                violations_out.append({"key": key, "replay": path, "runs": len(by_key[key])})
+                exit_code = 1
+                continue
             # gate 1: same plan, same verdict twice
             hs_a = execute_case(mod, sim, case)
             hs_b = execute_case(mod, sim, case)
